@@ -5,7 +5,7 @@
    matchers of type_pattern.cpp, ResolutionMap::bind_*, RankAccumulator).
    "Specificity" is the effective rank the code computes (candidate rank +
    adaptation adjustments); lower is more specific. *)
-Require Import Base Resolve ResolveFacts ResolveMatchFacts.
+Require Import Base Resolve ResolveFacts ResolveMatchFacts ResolveSubstFacts ResolveCompleteFacts.
 From Coq Require Import ZifyBool Permutation.
 
 (* ---- registration order does not matter ------------------------------------------------ *)
@@ -73,6 +73,22 @@ Proof.
 Qed.
 Print Assumptions match_sound.
 
+(* Completeness: whenever SOME substitution sg above the current map makes the pattern an
+   instance of the argument, the matcher succeeds and its result stays below sg — it is the least
+   consistent assignment.  So a failed match means that no consistent assignment exists.
+   ([no_bv]: no TSB schema variable, which compares up to bundle names.) *)
+Theorem match_complete :
+  (forall p s m sg, extends m sg -> sinst sg p s = true -> exists m', smatch p s m = Some m' /\ extends m' sg) /\
+  (forall p, no_bv p = true -> forall t m sg, extends m sg -> tinst sg p t = true ->
+             exists m', tmatch p t m = Some m' /\ extends m' sg) /\
+  (forall p, no_bv p = true -> forall t m sg, extends m sg -> iinst sg p t = true ->
+             exists m', imatch p t m = Some m' /\ extends m' sg).
+Proof.
+  exact (conj ResolveCompleteFacts.smatch_complete (conj ResolveCompleteFacts.tmatch_complete
+        ResolveCompleteFacts.imatch_complete)).
+Qed.
+Print Assumptions match_complete.
+
 (* acceptance is stable under extension, so the final map of a candidate serves all positions *)
 Theorem instance_stable_under_extension : forall m m', extends m m' ->
   (forall p s, sinst m p s = true -> sinst m' p s = true) /\
@@ -133,7 +149,86 @@ Theorem output_is_substitution : forall cs q s,
 Proof. exact ResolveMatchFacts.output_is_substitution_lemma. Qed.
 Print Assumptions output_is_substitution.
 
-(* ---- rank ------------------------------------------------------------------------------------ *)
+(* ---- substitution gives the argument type -------------------------------------------------- *)
+
+(* Substituting the bindings into a pattern gives the argument type up to exactly the slack
+   the matcher allows: [srel] (a tuple[T, ...] pattern also takes a fixed tuple of equal
+   fields), [accepts_in t' t] = [drel (deref t') (deref t)] (REF wrappers transparent,
+   bundle names ignored, SIGNAL accepts anything, TSL size 0 accepts any size). *)
+Theorem substitution_gives_argument_type :
+  (forall m p s s', sinst m p s = true -> sresolve p m = Some s' -> srel s' s = true) /\
+  (forall m p t t', tinst m p t = true -> tresolve p m = Some t' -> drel (deref t') (deref t) = true) /\
+  (forall m p t t', iinst m p t = true -> tresolve p m = Some t' -> accepts_in t' t = true) /\
+  (forall m p t t', oinst m p t = true -> tresolve p m = Some t' -> accepts_in t' t = true).
+Proof.
+  exact (conj ResolveSubstFacts.s_subst_rel (conj ResolveSubstFacts.t_subst_rel
+        (conj ResolveSubstFacts.i_subst_rel ResolveSubstFacts.o_subst_rel))).
+Qed.
+Print Assumptions substitution_gives_argument_type.
+
+(* for an accepted candidate: each substituted parameter pattern accepts its argument *)
+Theorem selected_params_accept_arguments : forall c q m k,
+  try_match c q = TMOk m k ->
+  Forall2 (fun pr a => match pr, a with
+                       | PIn p, ATs t => forall t', tresolve p m = Some t' -> accepts_in t' t = true
+                       | PScal sp, ASc v => forall s', sresolve sp m = Some s' -> srel s' v = true \/ coercible v s' = true
+                       | _, _ => True
+                       end) (c_params c) (q_args q).
+Proof. exact ResolveSubstFacts.selected_params_accept_arguments_lemma. Qed.
+Print Assumptions selected_params_accept_arguments.
+
+(* the resolved output of the selection accepts the output the caller requested *)
+Theorem selected_output_satisfies_request : forall cs q s e,
+  resolve cs q = OSel s -> c_has_out (s_cand s) = true -> q_expected q = Some e ->
+  exists t, output_of s = Some t /\ accepts_in t e = true.
+Proof. exact ResolveSubstFacts.selected_output_satisfies_request_lemma. Qed.
+Print Assumptions selected_output_satisfies_request.
+
+(* the relations are not trivial *)
+Example c19_relations_discriminate :
+  srel (SList (SAtom 1)) (STuple [SAtom 1; SAtom 1]) = true /\
+  srel (SList (SAtom 1)) (STuple [SAtom 1; SAtom 3]) = false /\
+  srel (SAtom 1) (SAtom 3) = false /\
+  accepts_in (TTsl (TTs (SAtom 1)) 0) (TRef (TTsl (TRef (TTs (SAtom 1))) 2)) = true /\
+  accepts_in (TTsl (TTs (SAtom 1)) 3) (TTsl (TTs (SAtom 1)) 2) = false /\
+  accepts_in (TTs (SAtom 1)) (TTs (SAtom 3)) = false /\
+  accepts_in (TTs (SAtom 1)) TSignal = false /\ accepts_in TSignal (TTs (SAtom 1)) = true.
+Proof. vm_compute. repeat split; reflexivity. Qed.
+
+(* ---- a statement that is FALSE of the faithful model (finding S1, docs/notes-resolve.md) ----
+
+   "If candidate A accepts a subset of what candidate B accepts (A is strictly more
+    specific) and both match, A is selected."  Refuted for scalar parameters: the generic
+   Scalar[~T] (rank 1) is selected over Scalar[Map[~K, ~V]] (rank 3) for a mapping
+   argument.  The witness is replayed on the implementation (corpus/resolve/S1-*.case). *)
+Theorem specific_scalar_pattern_wins_refuted :
+  exists generic specific q s,
+    c_params generic = [PScal (PSVar 1 [])] /\
+    c_params specific = [PScal (PSMap (PSVar 2 []) (PSVar 3 []))] /\
+    (forall v, exists m', smatch (PSVar 1 []) v empty_rmap = Some m') /\
+    smatch (PSMap (PSVar 2 []) (PSVar 3 [])) (SAtom 1) empty_rmap = None /\
+    (exists m k, try_match specific q = TMOk m k) /\
+    c_rank generic < c_rank specific /\
+    resolve [specific; generic] q = OSel s /\ s_cand s = generic.
+Proof. exact ResolveSubstFacts.specific_scalar_pattern_wins_refuted_lemma. Qed.
+Print Assumptions specific_scalar_pattern_wins_refuted.
+
+(* the same inversion inside a time-series parameter: TS[~T] (101) is selected over
+   TS[Mapping[~K, ~V]] (102) for a TS[Mapping[int, str]] argument *)
+Theorem specific_ts_pattern_wins_refuted :
+  exists generic specific q s,
+    c_params generic = [PIn (PTs (PSVar 1 []))] /\
+    c_params specific = [PIn (PTs (PSMap (PSVar 2 []) (PSVar 3 [])))] /\
+    (forall t m m', imatch (PTs (PSMap (PSVar 2 []) (PSVar 3 []))) t m = Some m' -> exists m'', imatch (PTs (PSVar 1 [])) t empty_rmap = Some m'') /\
+    imatch (PTs (PSMap (PSVar 2 []) (PSVar 3 []))) (TTs (SAtom 1)) empty_rmap = None /\
+    imatch (PTs (PSVar 1 [])) (TTs (SAtom 1)) empty_rmap <> None /\
+    (exists m k, try_match specific q = TMOk m k) /\
+    c_rank generic = 101 /\ c_rank specific = 102 /\
+    resolve [specific; generic] q = OSel s /\ s_cand s = generic.
+Proof. exact ResolveSubstFacts.specific_ts_pattern_wins_refuted_lemma. Qed.
+Print Assumptions specific_ts_pattern_wins_refuted.
+
+(* ---- rank ---------------------------------------------------------------------------------------- *)
 
 (* RankAccumulator::total sums an unordered_map: the iteration order is irrelevant *)
 Theorem rank_total_order_independent : forall st vs vs',
